@@ -7,7 +7,7 @@ namespace PdfVerif
 
 inductive Obj where
   | null
-  | nilArr                          -- Go: typed nil `Array(nil)`, formatted as `null`
+  | nilArr                          -- Go: typed nil `Array(nil)` or `Dict(nil)`, formatted as `null`
   | bool (b : Bool)
   | int (i : Int)
   | real (tok : Bytes)              -- decimal token as produced by strconv.FormatFloat(x,'f',-1,64)
@@ -68,6 +68,7 @@ def parseWire : Nat → List Char → Option (Obj × List Char)
     | [] => none
     | 'z' :: r => some (.null, r)
     | 'Z' :: r => some (.nilArr, r)
+    | 'N' :: r => some (.nilArr, r)   -- typed nil `Dict(nil)`: the same value (written `null`)
     | 't' :: r => some (.bool true, r)
     | 'f' :: r => some (.bool false, r)
     | 'i' :: r => let (a, b) := takeUntil ';' r; (parseDec a).map fun i => (.int i, b)
